@@ -27,7 +27,7 @@ TRUSTED = {
            'and String::from_utf8(..).unwrap() in fill_inplace is proved not to fail in U10 (overwriting an ASCII byte by an ASCII byte keeps UTF-8 validity)',
     'A11': 'A11 stated preconditions: wrap_optimal_fit: fragments.len() < usize::MAX; wrap_columns: columns <= isize::MAX and '
            'display_width(middle_gap)*(columns-1) <= usize::MAX (the "result could not fit in memory" exemption made precise)',
-    'A12': 'A12 the rewrite rules R0-R15 preserve behaviour (each application is logged in the evidence); the Python lexer/merger, Verus, Z3, Kani/CBMC, rustc',
+    'A12': 'A12 the rewrite rules R0-R17 preserve behaviour (incl. following consistent renames of bound locals, R0.follow_rename) (each application is logged in the evidence); the Python lexer/merger, Verus, Z3, Kani/CBMC, rustc',
     'A13': 'A13 BEC oracles: unicode-linebreak 0.1.5 and unicode-width 0.2.0 from the cargo registry are taken as the UAX #14 / width tables the properties refer to; '
            'in Verus (U20) unicode_linebreak::linebreaks(s) is abstract with an assumed shape (strictly increasing char-boundary positions in 1..=s.len()), '
            'checked on the real crate within scope by BEC contract A13.linebreaks.shape (C11)',
@@ -64,7 +64,7 @@ KANI = {'K1.default': K1, 'K1.no-default-features': K1MIN, 'K2.first_fit_n3': K2
 
 PROPS = {
     'C01': {
-        'units': ['U11', 'U6', 'U1', 'U13', 'U14', 'U15', 'U17', 'U20'], 'level': 'other', 'trusted': ['A1', 'A3', 'A4', 'A5', 'A9', 'A10', 'A12', 'A14', 'A15', 'R15', 'R16'],
+        'units': ['U11', 'U6', 'U1', 'U13', 'U14', 'U15', 'U17', 'U20'], 'level': 'other', 'trusted': ['A1', 'A3', 'A4', 'A5', 'A9', 'A10', 'A12', 'A14', 'A15', 'A17', 'R15', 'R16'],
         'proved_part': 'Verus (all inputs), for the whole text: wrap returns lines such that line k is indent_k ++ text[a_k .. b_k] ++ (nothing | a single hyphen), with a_0 == 0, '
                        'b_k <= a_(k+1) (slices in order, never overlapping), everything between two consecutive slices being ASCII spaces followed by at most one line ending, and '
                        'only spaces after the last slice — so nothing but such spaces and line endings is lost, and nothing is duplicated, reordered or invented (U11: wrap, '
